@@ -554,3 +554,40 @@ func printStmt(b *strings.Builder, s Stmt, ind int) {
 		panic("printStmt: unknown node")
 	}
 }
+
+// HasRange reports whether the expression contains the range operator.
+func HasRange(e Expr) bool {
+	switch x := e.(type) {
+	case Binary:
+		return x.Op == ".." || HasRange(x.L) || HasRange(x.R)
+	case Unary:
+		return HasRange(x.X)
+	case Paren:
+		return HasRange(x.X)
+	case Index:
+		return HasRange(x.X) || HasRange(x.I)
+	case Dot:
+		return HasRange(x.X)
+	case Ternary:
+		return HasRange(x.C) || HasRange(x.A) || HasRange(x.B)
+	case Call:
+		for _, a := range x.Args {
+			if HasRange(a) {
+				return true
+			}
+		}
+	case ArrayLit:
+		for _, a := range x.Elems {
+			if HasRange(a) {
+				return true
+			}
+		}
+	case HashLit:
+		for i := range x.Keys {
+			if HasRange(x.Keys[i]) || HasRange(x.Vals[i]) {
+				return true
+			}
+		}
+	}
+	return false
+}
